@@ -65,6 +65,9 @@ type SeedCfg struct {
 	TickMs      int     `json:"tickms"`
 	ReadDelayUs int     `json:"readdelayus"`
 	UploadKBps  int64   `json:"uploadkbps"`
+	SweepPieces int     `json:"sweeppieces,omitempty"` // key-space layout: this many pieces of SweepPLen bytes (two files)
+	SweepPLen   int     `json:"sweepplen,omitempty"`
+	Twin        bool    `json:"twin,omitempty"` // a second torrent (same layout, other content) shares the session and its read cache
 	Dir         string  `json:"dir,omitempty"` // scratch directory of the child (created and removed by the parent)
 	Dummy       float64 `json:"-"`
 }
@@ -76,8 +79,25 @@ func layouts(unit int) []vh.Layout {
 }
 
 func buildTorrent(sc *SeedCfg) *vh.Torrent {
+	if sc.SweepPieces > 0 {
+		pl := int64(sc.SweepPLen)
+		total := int64(sc.SweepPieces)*pl - pl/3
+		a := 10*pl + pl/2
+		l := vh.Layout{Name: "sweep", PieceLen: sc.SweepPLen, Files: []vh.FileSpec{{Path: []string{"a.bin"}, Length: a}, {Path: []string{"b.bin"}, Length: total - a}}}
+		return vh.Build(l, sc.TorSeed, nil, nil)
+	}
 	ls := layouts(sc.Unit)
 	return vh.Build(ls[sc.Layout%len(ls)], sc.TorSeed, nil, nil)
+}
+
+// buildTwin is the second torrent of a Twin session: same layout, different name and content.
+func buildTwin(sc *SeedCfg) *vh.Torrent {
+	c := *sc
+	c.TorSeed = sc.TorSeed + 7777
+	t := buildTorrent(&c)
+	l := t.Layout
+	l.Name = l.Name + "-twin"
+	return vh.Build(l, c.TorSeed, nil, nil)
 }
 
 // heldPieces is the independent definition of "pieces the seed has verified": every piece whose stored
@@ -129,6 +149,9 @@ func seedMain(js string) {
 	prov := vh.NewMemProvider(T)
 	prov.Quiet = true
 	prov.Truth[""] = tor
+	if sc.Twin {
+		prov.Truth["t2"] = buildTwin(&sc)
+	}
 	st := prov.Store("t1")
 	st.Fill(tor)
 	pl := int64(tor.PieceLen)
@@ -201,7 +224,23 @@ func seedMain(js string) {
 	if sc.TickMs > 0 {
 		torrent.VerifSetUnchokePeriod(tr, time.Duration(sc.TickMs)*time.Millisecond)
 	}
-	rd, _ := json.Marshal(map[string]any{"port": snap.Port, "have": snap.Have, "status": snap.Status})
+	port2 := 0
+	if sc.Twin {
+		tor2 := buildTwin(&sc)
+		prov.Store("t2").Fill(tor2)
+		hub2 := vh.InstallSnapHub(T, false)
+		if _, err := s.AddTorrent(bytes.NewReader(tor2.Bytes), &torrent.AddTorrentOptions{ID: "t2"}); err != nil {
+			fail("add twin", err)
+		}
+		if !hub2.Wait("t2", 20*time.Second, func(v *torrent.VerifSnap) bool {
+			return v.Status == "Seeding" && v.Acceptor && v.Port != 0 && !v.BitfieldNil
+		}) {
+			fail("twin torrent did not reach Seeding", fmt.Sprintf("%+v", hub2.Get("t2")))
+		}
+		port2 = hub2.Get("t2").Port
+		torrent.VerifSetTracer(nil)
+	}
+	rd, _ := json.Marshal(map[string]any{"port": snap.Port, "port2": port2, "have": snap.Have, "status": snap.Status})
 	fmt.Printf("READY %s\n", rd)
 	io.Copy(io.Discard, os.Stdin) // the parent closes our stdin when the scenario is over
 	cleanup()
@@ -235,6 +274,8 @@ type scen struct {
 	nextC   int
 	crashed atomic.Bool
 	addr    string
+	tor2    *vh.Torrent // twin torrent (nil if none)
+	addr2   string
 	stats   map[string]int
 }
 
@@ -263,6 +304,9 @@ type leecher struct {
 	unch   atomic.Bool
 	lastRx atomic.Int64
 	nconn  int
+	tor    *vh.Torrent // the torrent this leecher talks to (the scenario's, or its twin)
+	addr   string
+	rxPcs  atomic.Int64
 	sent   [][3]uint32 // requests sent on the current connection
 	af     []uint32    // allowed-fast pieces received on the current connection (under s.mu)
 }
@@ -283,13 +327,13 @@ func (l *leecher) connect() bool {
 	s.mu.Unlock()
 	l.nconn++
 	ip := fmt.Sprintf("127.%d.%d.%d", 1+l.idx, l.nconn/250, 2+l.nconn%250)
-	nc, err := vh.DialFrom(ip, s.addr, 3*time.Second)
+	nc, err := vh.DialFrom(ip, l.addr, 3*time.Second)
 	if err != nil {
 		return false
 	}
 	var id [20]byte
 	copy(id[:], fmt.Sprintf("-VH0001-%04d%04d%04d", s.id%10000, l.idx, c))
-	h, err := vh.PlainHandshake(nc, s.tor.InfoHash, id, vh.ReservedBits(l.fast, l.ext, false), 3*time.Second)
+	h, err := vh.PlainHandshake(nc, l.tor.InfoHash, id, vh.ReservedBits(l.fast, l.ext, false), 3*time.Second)
 	if err != nil {
 		nc.Close()
 		return false
@@ -317,7 +361,7 @@ func (l *leecher) connect() bool {
 func (l *leecher) reader(conn *vh.Conn, c int, done chan struct{}) {
 	defer close(done)
 	s := l.s
-	tor := s.tor
+	tor := l.tor
 	for {
 		m, err := conn.Recv(0)
 		if err != nil {
@@ -362,6 +406,7 @@ func (l *leecher) reader(conn *vh.Conn, c int, done chan struct{}) {
 			}
 			s.emit(ev{"op": "Piece", "c": c, "i": sat(m.Index), "b": sat(m.Begin), "n": len(m.Data), "class": class, "diff": diff})
 			s.count("rx_piece")
+			l.rxPcs.Add(1)
 		default:
 			s.emit(ev{"op": "Other", "c": c, "kind": m.Name()})
 		}
@@ -589,6 +634,10 @@ func (g *reqGen) invalid(held []int) (uint32, uint32, uint32, string) {
 func (l *leecher) run(wg *sync.WaitGroup) {
 	defer wg.Done()
 	s := l.s
+	if s.style == "keysweep" {
+		l.runSweep()
+		return
+	}
 	g := newReqGen(s.tor, int(s.sc.CB), l.rng)
 	rng := l.rng
 	held := []int{}
@@ -747,6 +796,64 @@ func (l *leecher) run(wg *sync.WaitGroup) {
 	}
 }
 
+// runSweep exercises the key space of the read cache: every (piece, cache block) pair of the torrent is
+// read twice with a few bytes at the block start, pass 1 in piece-major order (cold cache), pass 2 in a
+// shuffled order (warm cache: everything fits and nothing expires). Two colliding keys would hand the
+// bytes of one pair to the other.
+func (l *leecher) runSweep() {
+	s := l.s
+	rng := l.rng
+	cb := int(s.sc.CB)
+	type pair struct{ p, blk int }
+	var pairs []pair
+	for p := 0; p < l.tor.NumPieces; p++ {
+		for blk := 0; blk*cb < l.tor.PieceLenOf(p); blk++ {
+			pairs = append(pairs, pair{p, blk})
+		}
+	}
+	if !l.connect() {
+		return
+	}
+	l.send("Interested", vh.Msg{ID: vh.MsgInterested})
+	if !l.waitUnchoke(3 * time.Second) {
+		l.hangup()
+		return
+	}
+	sent := int64(0)
+	for pass := 0; pass < 2; pass++ {
+		order := append([]pair(nil), pairs...)
+		if pass == 1 {
+			rng.Shuffle(len(order), func(i, j int) { order[i], order[j] = order[j], order[i] })
+		}
+		for k, q := range order {
+			plen := l.tor.PieceLenOf(q.p)
+			b := q.blk*cb + []int{0, 0, 1, 2}[rng.Intn(4)]
+			if b >= plen {
+				b = q.blk * cb
+			}
+			n := min(3+2*pass, plen-b) // another length in the second pass: the writer refuses a repeated triple
+			if !l.send("Request", vh.Msg{ID: vh.MsgRequest, Index: uint32(q.p), Begin: uint32(b), Length: uint32(n)}) {
+				return
+			}
+			sent++
+			if k%24 == 23 || k == len(order)-1 { // stay far below MaxRequestsIn: wait for the answers
+				t0 := time.Now()
+				for l.rxPcs.Load() < sent && time.Since(t0) < 3*time.Second {
+					time.Sleep(200 * time.Microsecond)
+					s.mu.Lock()
+					cl := l.closed
+					s.mu.Unlock()
+					if cl {
+						return
+					}
+				}
+			}
+		}
+	}
+	l.idle(30*time.Millisecond, 500*time.Millisecond)
+	l.hangup()
+}
+
 var panicSite = regexp.MustCompile(`(?m)^(github\.com/cenkalti/rain/v2/[^\s(]+(?:\([^)]*\))?[^\s(]*)\(`)
 
 func crashInfo(stderr string) (string, string) {
@@ -806,6 +913,7 @@ func runScenario(s *scen, self string) error {
 	}
 	var rd struct {
 		Port   int    `json:"port"`
+		Port2  int    `json:"port2"`
 		Have   []int  `json:"have"`
 		Status string `json:"status"`
 	}
@@ -814,6 +922,10 @@ func runScenario(s *scen, self string) error {
 		return err
 	}
 	s.addr = fmt.Sprintf("127.0.0.1:%d", rd.Port)
+	if s.sc.Twin {
+		s.tor2 = buildTwin(&s.sc)
+		s.addr2 = fmt.Sprintf("127.0.0.1:%d", rd.Port2)
+	}
 	heldList := heldPieces(s.tor, s.sc.Missing)
 	s.held = map[int]bool{}
 	for _, p := range heldList {
@@ -846,7 +958,10 @@ func runScenario(s *scen, self string) error {
 	}()
 	var wg sync.WaitGroup
 	for k := 0; k < s.nleech; k++ {
-		l := &leecher{s: s, idx: k, rng: rand.New(rand.NewSource(s.seed*131 + int64(k))), fast: s.fastOf[k], ext: s.extOf[k]}
+		l := &leecher{s: s, idx: k, rng: rand.New(rand.NewSource(s.seed*131 + int64(k))), fast: s.fastOf[k], ext: s.extOf[k], tor: s.tor, addr: s.addr}
+		if s.tor2 != nil && k%2 == 1 {
+			l.tor, l.addr = s.tor2, s.addr2
+		}
 		wg.Add(1)
 		go l.run(&wg)
 	}
@@ -879,7 +994,7 @@ var cbs = []int64{4096, 5000, 16384, 131072}
 
 func makeScenario(id int, seed int64, nreq int) *scen {
 	rng := rand.New(rand.NewSource(seed*7919 + int64(id)))
-	styles := []string{"mixed", "evict", "choked", "flip", "flood", "partial", "nocache1", "mixed2", "nocache2", "uninterested"}
+	styles := []string{"mixed", "evict", "choked", "flip", "flood", "partial", "nocache1", "mixed2", "nocache2", "uninterested", "keysweep"}
 	style := styles[id%len(styles)]
 	cb := cbs[(id/len(styles)+id)%len(cbs)]
 	unit := 16384
@@ -954,6 +1069,21 @@ func makeScenario(id int, seed int64, nreq int) *scen {
 	case "uninterested":
 		s.sc.Unchoked = 1 + rng.Intn(2)
 		s.nleech = 2
+	case "keysweep":
+		// many pieces x many cache blocks per piece, everything stays cached: the key space of the read cache.
+		// A twin torrent (other content, same indexes) shares the cache: the key must contain the torrent's peer id.
+		s.sc.CB = 4096
+		cb = 4096
+		s.sc.SweepPieces = 24 + rng.Intn(9)
+		if os.Getenv("VERIF_TIER") == "quick" {
+			s.sc.SweepPieces = 24
+		}
+		s.sc.SweepPLen = 65536
+		s.sc.CacheSize = 256 << 20
+		s.sc.TTLms = 600000
+		s.sc.Twin = true
+		s.nleech = 2
+		s.sc.Unchoked, s.sc.Optimistic = 4, 1
 	}
 	s.tor = buildTorrent(&s.sc)
 	for k := 0; k < s.nleech; k++ {
@@ -1207,6 +1337,52 @@ func readatMain(args []string) {
 			cache.Close()
 		}
 	}
+	// key space of the cache: many pieces (index up to 35) x many blocks (up to 18) x two peer ids, ONE cache that
+	// holds everything; pass 1 in order (cold), pass 2 shuffled (warm). A colliding key returns another pair's bytes.
+	nshared := 0 // not counted against the budget of the per-configuration sweeps
+	shared := func(cb, np, nblk int) {
+		cache := piececache.New(1<<30, 10*time.Minute, 1)
+		plen := nblk*cb - cb/2
+		emit(ev{"op": "Init", "kind": "readat", "sub": "sharedcache", "np": 1, "plens": []int{plen}, "have": []int{0}, "maxblk": maxBlk, "maxq": 0, "cb": cb,
+			"nconn": 0, "cachesize": 1 << 30, "ttlms": 600000, "pieces": np, "blocks": nblk, "peerids": 2})
+		type obj struct {
+			cp    *cachedpiece.CachedPiece
+			truth []byte
+			p, id int
+		}
+		var objs []obj
+		for idn := 0; idn < 2; idn++ {
+			var pid [20]byte
+			copy(pid[:], fmt.Sprintf("-VH0001-peer-id-%04d", idn))
+			for p := 0; p < np; p++ {
+				pi, truth := flatPiece(rng, plen, 0)
+				pi.Index = uint32(p)
+				objs = append(objs, obj{cachedpiece.New(pi, cache, int64(cb), pid), truth, p, idn})
+			}
+		}
+		type q struct{ o, blk int }
+		var qs []q
+		for o := range objs {
+			for blk := 0; blk*cb < plen; blk++ {
+				qs = append(qs, q{o, blk})
+			}
+		}
+		for pass := 0; pass < 2; pass++ {
+			if pass == 1 {
+				rng.Shuffle(len(qs), func(i, j int) { qs[i], qs[j] = qs[j], qs[i] })
+			}
+			for _, x := range qs {
+				o := objs[x.o]
+				off := x.blk*cb + rng.Intn(2)
+				ln := min(2+pass, plen-off)
+				n, errc, class := readOnce(o.cp, o.truth, off, ln)
+				emit(ev{"op": "ReadAt", "plen": plen, "cb": cb, "off": off, "len": ln, "n": n, "err": errc, "class": class, "p": o.p, "blk": x.blk, "pid": o.id, "pass": pass})
+				nshared++
+			}
+		}
+		cache.Close()
+	}
+	shared(8, 36, 18)
 	id := 0
 	for _, c := range big {
 		run(c, false, id)
@@ -1223,7 +1399,7 @@ func readatMain(args []string) {
 	}
 	w.Flush()
 	f.Close()
-	fmt.Printf("readat traces=%d reads=%d\n", id, total)
+	fmt.Printf("readat traces=%d reads=%d sharedcache_reads=%d\n", id, total, nshared)
 }
 
 // ---- concurrent readers of one cache (child process: a panic in a reader goroutine cannot be recovered elsewhere)
